@@ -35,6 +35,12 @@ pub struct Batch {
     pub witness: u64,
 }
 
+/// Run one case of a scenario (sets the per-case transport style first).
+pub fn run_case(run: fn(&Case, bool) -> RunOut, case: &Case, trace: bool) -> RunOut {
+    crate::sim::READER_STYLE.with(|s| s.set(case.reader_style));
+    run(case, trace)
+}
+
 pub fn gen_case(s: &Scenario, master: u64, tier: Tier, idx: u64) -> (u64, Case) {
     let seed = run_seed(master, s.name, idx);
     let mut rng = Rng::new(seed);
@@ -101,7 +107,7 @@ pub fn run_batch(
                     let end = if budget.is_none() { (b + BLOCK).min(runs) } else { b + BLOCK };
                     for idx in b..end {
                         let (seed, case) = gen_case(s, master, tier, idx);
-                        let mut out: RunOut = match crate::fe::guarded(|| (s.run)(&case, false)) {
+                        let mut out: RunOut = match crate::fe::guarded(|| run_case(s.run, &case, false)) {
                             Ok(o) => o,
                             Err(m) => {
                                 let mut o = RunOut::default();
